@@ -209,8 +209,92 @@ def virtual_roundtrip(ctx, rep, rule, virt, seps, reals=None, argsets=None, what
             "; ".join(sorted(problems)[:4]), key=f"{rule}|virtual-init")
 
 
+def _mail_sequence(expr, func, defs=None):
+    """Canonical text of the message sequence an expression denotes: the mailbox itself is MBOX whether it is spelled
+    self.mbox, self.openmailbox() or iter(...) of those; generator variables are renamed positionally."""
+    import copy
+
+    e = expand_ast(expr, func, defs) if defs else expand_ast(expr, func)
+    e = copy.deepcopy(e)
+
+    class N(ast.NodeTransformer):
+        def __init__(self):
+            self.ren = {}
+
+        def visit_Call(self, n):
+            self.generic_visit(n)
+            d = dotted(n.func) or ""
+            if d in ("iter", "list", "tuple") and len(n.args) == 1:
+                return n.args[0]
+            if isinstance(n.func, ast.Attribute) and n.func.attr in ("openmailbox", "itervalues", "values", "__iter__") and dotted(n.func.value) in ("self", "self.mbox"):
+                return ast.Name(id="MBOX", ctx=ast.Load())
+            return n
+
+        def visit_Attribute(self, n):
+            if norm(n) == "self.mbox":
+                return ast.Name(id="MBOX", ctx=ast.Load())
+            return self.generic_visit(n)
+
+        def visit_comprehension(self, n):
+            if isinstance(n.target, ast.Name):
+                self.ren[n.target.id] = f"_v{len(self.ren)}"
+            return self.generic_visit(n)
+
+        def visit_Name(self, n):
+            if n.id in self.ren:
+                return ast.Name(id=self.ren[n.id], ctx=n.ctx)
+            return n
+
+    tr = N()
+    # comprehension targets are visited after the element: rename in two passes
+    for c in ast.walk(e):
+        if isinstance(c, ast.comprehension) and isinstance(c.target, ast.Name):
+            tr.ren.setdefault(c.target.id, f"_v{len(tr.ren)}")
+    e = tr.visit(e)
+    try:
+        return ast.unparse(ast.fix_missing_locations(e))
+    except Exception:
+        return norm(expr)
+
+
+def mail_sequence_obligations(ctx, rep, rule):
+    """The number in a message link counts positions in the sequence the folder enumerates; the message handler has to
+    step through the same sequence (same mailbox, same filter - or none on both sides)."""
+    prog = ctx.prog
+    fh = ctx.cls("handlers.mbox.FolderHandler")
+    mh = ctx.cls("handlers.mbox.MessageHandler")
+    if fh is None or mh is None:
+        return
+    from ..structure import helper_calls
+
+    fseq, mseq = set(), set()
+    prep = prog.resolve_method(fh, "prepare")
+    for fn in ([prep] if prep else []) + [g for g, _, _, _ in (helper_calls(prog, ctx.resolver, prep, fh, depth=2) if prep else [])]:
+        for n in ast.walk(fn.node):
+            if isinstance(n, ast.Call) and dotted(n.func) == "enumerate" and n.args:
+                fseq.add(_mail_sequence(n.args[0], fn))
+    gm = prog.resolve_method(mh, "getmessage")
+    if gm is not None:
+        from ..paths import Walker
+
+        for p in Walker(prog, ctx.resolver, merge_loops=True).run(gm, mh):
+            for e in p.events:
+                if e.kind == "call" and dotted(e.node.func) == "next" and e.node.args:
+                    mseq.add(_mail_sequence(e.node.args[0], gm, e.defs))
+                if e.kind == "call" and dotted(e.node.func) in ("itertools.islice", "islice") and e.node.args:
+                    mseq.add(_mail_sequence(e.node.args[0], gm, e.defs))
+        for n in ast.walk(gm.node):
+            if isinstance(n, ast.For) and isinstance(n.iter, ast.Call) and dotted(n.iter.func) == "enumerate" and n.iter.args:
+                mseq.add(_mail_sequence(n.iter.args[0], gm))
+    ok = bool(fseq) and bool(mseq) and fseq == mseq
+    rep.add(rule, f"folder numbers {sorted(fseq)} = message lookup steps through {sorted(mseq)}", ok, ctx.where(gm or prep),
+            "" if ok else "the folder listing numbers messages by their position in one sequence and the message handler counts in another: "
+            "links after a skipped message open a different message, the last ones none", key=f"{rule}|mail-sequence")
+
+
 def folder_message_evaluation(ctx, rep, rule) -> bool:
     """True when the evaluation decided (obligations added); False = fall back to the structural form."""
+    mail_sequence_obligations(ctx, rep, rule)
     from ..paths import Const, State, Walker
 
     prog = ctx.prog
@@ -314,6 +398,7 @@ def check(ctx, rep):
     eff = Effects(prog, ctx.resolver)
     rep.rule("R05a", "selector encoder (renderobjinfo) and decoder (handle) of each URL-based protocol use the same codec; one decoding layer; safe chars exclude separators", floor=3)
     rep.rule("R05b", "WAP prefix: same configuration value rendered and stripped; Gemini query prefix: same class constant", floor=2)
+    rep.rule("R05g", "each URL-based protocol maps a request target to the selector it names (evaluated on 12 targets per protocol)", floor=3)
     rep.rule("R05f", "WAP prefix: only paths below the prefix are WAP by path; names merely starting with its letters are not", floor=6)
     rep.rule("R05c", "virtual selector separator emitted is one the parser splits on", floor=1)
     rep.rule("R05e", "virtual selectors round-trip: the real part Virtual.__init__ settles on never contains a separator", floor=1)
@@ -450,13 +535,24 @@ def check(ctx, rep):
         # (that the request test strips exactly that prefix is decided by evaluation: R05f)
         if key_cfg is None:
             problems.append("the request test does not read the configured WAP prefix")
-        render_vals = set()
-        if grs is not None:
-            for n in ast.walk(grs.node):
-                if isinstance(n, ast.BinOp) and isinstance(n.op, ast.Add) and norm(n.right) == "url":
-                    render_vals.add(norm(n.left))
-        if render_vals != {"self.waptop"}:
-            problems.append(f"links are rendered with prefix {sorted(render_vals) or 'none'}, not with the configured value the request test strips")
+        # rendering: evaluated with self.waptop = "/WAPTOP": a link to this server ("/x") gets the prefix, an absolute URL does not
+        if grs is None:
+            problems.append("WAP link renderer not found")
+        else:
+            from ..paths import Const as _C, Walker as _Wk
+
+            uparam = grs.params[2] if len(grs.params) > 2 else "url"
+            for given, want in (("/x", "/WAPTOP/x"), ("gopher://other.example:70/1/x", "gopher://other.example:70/1/x")):
+                got = set()
+                wk = _Wk(prog, ctx.resolver, assumptions={"self.waptop": _C("/WAPTOP")}, sticky={"self.waptop"}, merge_loops=True)
+                for pth in wk.run(grs, wap, env={uparam: _C(given)}):
+                    if pth.kind == "raise":
+                        continue
+                    v = pth.state.env.get(uparam)
+                    got.add(v.value if v is not None and v.kind == "const" else None)
+                if got != {want}:
+                    problems.append(f"a link target {given!r} is rendered as {sorted(map(str, got))} instead of {want!r} "
+                                    "(links to this server must carry the configured prefix that the request test strips, others must not)")
         # self.waptop must be that same option
         srcs = set()
         for c in prog.mro(wap):
@@ -491,6 +587,7 @@ def check(ctx, rep):
         rep.add("R05b", "Gemini query prefix: one constant on both sides", not problems, ctx.where(ro or h), "; ".join(problems), key="R05b|gemini")
 
     wap_prefix_boundary(ctx, rep, "R05f")
+    request_target_evaluation(ctx, rep, "R05g")
 
     # ------------------------------------------------------------------ R05c
     virt = ctx.cls("handlers.virtual.Virtual")
@@ -654,3 +751,74 @@ def wap_prefix_boundary(ctx, rep, rule="R05f"):
                                 f"over plain HTTP it is answered with the object {sorted(map(str, stripped))} instead of {path!r}")
         rep.add(rule, f"{can.qualname}: {path!r} {'is' if by_prefix else 'is not'} WAP by prefix", not problems, ctx.where(can), "; ".join(problems),
                 key=f"{rule}|{path}")
+
+
+# ---------------------------------------------------------------------------- R05g
+def request_target_evaluation(ctx, rep, rule="R05g"):
+    """What each URL-based protocol's handle() makes of a request target, evaluated by the walker on representative
+    targets up to the handler lookup: the selector has to be the percent-decoded path - cut only at the query separator,
+    whatever other reserved characters (';', ':', '@', '&', '=', '+', '$', ',') the name contains - and the link encoder's
+    output for that selector has to come back as the same selector."""
+    from ..paths import Const, Walker
+
+    prog = ctx.prog
+    import urllib.parse as up
+
+    names = ["/docs/a b.txt", "/notes;2.txt", "/a?b", "/a#b", "/caf\udce9.txt", "/x&y=z,w+v$", "/résumé.txt", "/dir/sub", "/100%"]
+
+    def targets():
+        for nme in names:
+            yield up.quote(nme, errors="surrogateescape"), nme, "as advertised"
+        yield "/notes;2.txt", "/notes;2.txt", "literal ';'"
+        yield "/x&y=z,w+v$", "/x&y=z,w+v$", "literal sub-delims"
+        yield "/a%20b?searchrequest=q", "/a b", "with a query"
+
+    protos = [("protocols.http.HTTPProtocol", lambda t: {"self.requestparts": Const(["GET", t, "HTTP/1.0"]), "self.requestparts[1]": Const(t),
+                                                          "self.requestparts[0]": Const("GET")}),
+              ("protocols.gemini.GeminiProtocol", lambda t: {"self.request": Const(f"gemini://host.example{t}\r\n")}),
+              ("protocols.spartan.SpartanProtocol", lambda t: {"self.request": Const(f"host.example {t} 0\r\n")})]
+    for qual, mkfacts in protos:
+        P = ctx.cls(qual)
+        h = prog.resolve_method(P, "handle") if P else None
+        if h is None:
+            continue
+        problems = []
+        n = 0
+        for target, want, label in targets():
+            if qual.endswith("SpartanProtocol") and "?" in target:
+                continue  # Spartan has no query part
+            facts = mkfacts(target)
+
+            def rp(call, tgt):
+                return ["StopAtLookup"] if isinstance(call.func, ast.Attribute) and call.func.attr == "gethandler" else []
+
+            def cv(call, tgt, st):
+                if isinstance(call.func, ast.Attribute) and call.func.attr in ("headerslurp", "log"):
+                    return Const(None)
+                return None
+
+            from ..structure import inline_attr_setters
+
+            w = Walker(prog, ctx.resolver, assumptions=facts, sticky=set(facts), raise_points=rp, call_value=cv, exact_loops=True, unroll=4,
+                       inline=lambda fn, t, d: d < 3 and t.bound_cls is not None and fn.name not in (
+                           "gethandler", "writedir", "filenotfound", "log", "renderobjinfo", "headerslurp", "write_status", "handlerwrite", "canhandlerequest"))
+            got = set()
+            for p in w.run(h, P, facts=dict(facts)):
+                if p.kind == "raise" and str(p.value) == "StopAtLookup":
+                    v = p.state.facts.get("self.selector")
+                    got.add(v.value if v is not None and v.kind == "const" else None)
+                elif any(e.kind == "call" and isinstance(e.node.func, ast.Attribute) and e.node.func.attr == "gethandler" for e in p.events):
+                    continue  # the continuation after the lookup (its state at the lookup is the StopAtLookup twin)
+                elif p.kind == "raise":
+                    got.add(f"<{p.value}>")
+                else:
+                    got.add("<no lookup>")
+            n += 1
+            if None in got:
+                problems.append(f"the selector for the request target {target!r} is not determined by code the analysis understands")
+                break
+            if got != {want}:
+                problems.append(f"request target {target!r} ({label}) becomes selector {sorted(map(str, got))} instead of {want!r}: "
+                                "the object served is not the one the link names")
+        rep.add(rule, f"{h.qualname}: request targets map to the selector they name [{n} targets]", not problems, ctx.where(h), "; ".join(problems[:3]),
+                key=f"{rule}|{h.qualname}")
